@@ -9,6 +9,7 @@
 use bytes::Bytes;
 use proptest::prelude::*;
 use serde::{Deserialize, Serialize};
+use serde_json::json;
 
 use crate::engine::{
     gen::{payload, GCfg},
@@ -174,8 +175,19 @@ fn sample_msg(kind: u8) -> RefMsg {
     }
 }
 
+/// Oracles of the form "the peer exceeded a limit and the endpoint keeps accepting".
+const LIMIT_SIGS: [&str; 6] = [
+    "C08/request-limit",
+    "C08/buffer-exceeded",
+    "C08/unbounded-port-requests",
+    "C08/unbounded-requests",
+    "C08/unbounded-zero-credit-frames",
+    "C08/unbounded-tasks",
+];
+
 #[derive(Default)]
 pub struct EvilStats {
+    pub after_goodbye: u32,
     pub reached_with_open_port: bool,
     pub terminated: bool,
     pub terminated_with: String,
@@ -626,11 +638,21 @@ pub async fn hostile(case: &Case) -> (Option<(String, String)>, EvilStats, u64) 
 
         for e in &case.evil {
             let before = link.sent(1);
+            // Once the peer itself has said Goodbye the endpoint rightly stops reading: frames
+            // sent after that are never looked at, so the limit oracles ("keeps accepting") do not
+            // apply any more (whether the frame was read as a Goodbye is what matters: a one-byte
+            // frame 15 delivered where a message is expected).
+            let goodbye_before = link.tap().iter().any(|ev| ev.dir == 1 && ev.bytes.as_ref() == [15u8]);
             let r = inject(&mut conv, e, &run, &mut st).await;
             if link.sent(1) > before {
                 st.applied += 1;
             }
-            r?;
+            match r {
+                Err((sig, _)) if goodbye_before && LIMIT_SIGS.contains(&sig.as_str()) => {
+                    st.after_goodbye += 1;
+                }
+                r => r?,
+            }
             settle().await;
         }
         tokio::time::sleep(std::time::Duration::from_millis(20)).await;
@@ -850,11 +872,209 @@ pub fn main(tier: Tier, seed: u64) -> Report {
         runner::run_cases(&mut rep, "regress", regress, run_case);
     }
     runner::run_generated(&mut rep, "hostile", tier.pick(60_000, 400_000), || strategy(tier), run_case);
+
+    // Byte level: frames that are not drawn from the message grammar at all.
+    rep.assumptions.push("byte-level parts: the harness completes a valid handshake, then puts generated frames on the transport verbatim; a port field 0xFFFFFF00+k in a frame that decodes as a message is replaced by the k-th port number the real endpoint has announced (its port numbers are random)".into());
+    let regress_b: Vec<BytesCase> = runner::load_regress::<BytesCase>("C08", "bytes").into_iter().map(|(_, c)| c).collect();
+    let seeds: Vec<BytesCase> = rvh::fuzz_c08::seed_corpus().iter().map(|i| BytesCase::from_input(i)).collect();
+    runner::run_cases(&mut rep, "bytes-seeds", regress_b.into_iter().chain(seeds).collect(), run_bytes);
+    runner::run_generated(&mut rep, "bytes", tier.pick(10_000, 300_000), bytes_strategy, run_bytes);
+    if tier == Tier::Thorough {
+        libfuzzer_stage(&mut rep, seed, 240);
+    }
     rep
 }
 
-pub fn replay(_part: &str, case: serde_json::Value) -> (Option<runner::Failure>, u32, u32) {
+pub fn replay(part: &str, case: serde_json::Value) -> (Option<runner::Failure>, u32, u32) {
+    if part.starts_with("bytes") {
+        let c: BytesCase = serde_json::from_value(case).expect("replay case does not parse as C08 bytes case");
+        let (f, h) = runner::replay_case(&c, run_bytes, 3);
+        return (f, h, 3);
+    }
     let c: Case = serde_json::from_value(case).expect("replay case does not parse as C08 case");
     let (f, h) = runner::replay_case(&c, run_case, 3);
     (f, h, 3)
+}
+
+// ---------------------------------------------------------------------------------------------
+// Byte-level parts (entry function shared with the libFuzzer target: rvh::fuzz_c08::run_input).
+// ---------------------------------------------------------------------------------------------
+
+#[derive(Clone, Debug, Serialize, Deserialize)]
+pub struct BytesCase {
+    pub sel: u8,
+    pub beh: u8,
+    pub frames: Vec<Vec<u8>>,
+}
+
+impl BytesCase {
+    pub fn from_input(data: &[u8]) -> Self {
+        BytesCase {
+            sel: data.first().copied().unwrap_or(0),
+            beh: data.get(1).copied().unwrap_or(0),
+            frames: rvh::fuzz_c08::frames_of(data).into_iter().map(|f| f.to_vec()).collect(),
+        }
+    }
+    pub fn to_input(&self) -> Vec<u8> {
+        rvh::fuzz_c08::encode_input(self.sel, self.beh, &self.frames)
+    }
+}
+
+fn port_field() -> BoxedStrategy<u32> {
+    let sym = rvh::fuzz_c08::SYM;
+    prop_oneof![6 => (0u32..4).prop_map(move |k| sym + k), 2 => 0u32..8, 1 => any::<u32>()].boxed()
+}
+
+fn msg_strategy() -> BoxedStrategy<RefMsg> {
+    prop_oneof![
+        2 => (port_field(), any::<bool>(), proptest::option::of(any::<u32>())).prop_map(|(client_port, wait, id)| RefMsg::OpenPort { client_port, wait, id }),
+        2 => (port_field(), 0u32..64).prop_map(|(client_port, server_port)| RefMsg::PortOpened { client_port, server_port }),
+        1 => (port_field(), any::<bool>()).prop_map(|(client_port, no_ports)| RefMsg::Rejected { client_port, no_ports }),
+        4 => (port_field(), any::<bool>(), any::<bool>()).prop_map(|(port, first, last)| RefMsg::Data { port, first, last }),
+        3 => (port_field(), any::<bool>(), any::<bool>(), any::<bool>(), proptest::collection::vec(0u32..40, 0..5), any::<bool>())
+            .prop_map(|(port, first, last, wait, ports, with_ids)| {
+                let ids = if with_ids { Some(ports.iter().map(|p| p + 100).collect()) } else { None };
+                RefMsg::PortData { port, first, last, wait, ports, ids }
+            }),
+        2 => (port_field(), prop_oneof![3 => 0u32..300, 1 => any::<u32>()]).prop_map(|(port, credits)| RefMsg::PortCredits { port, credits }),
+        1 => port_field().prop_map(|port| RefMsg::SendFinish { port }),
+        1 => port_field().prop_map(|port| RefMsg::ReceiveClose { port }),
+        1 => port_field().prop_map(|port| RefMsg::ReceiveFinish { port }),
+        1 => Just(RefMsg::Ping),
+        1 => prop_oneof![Just(RefMsg::ClientFinish), Just(RefMsg::ListenerFinish), Just(RefMsg::Goodbye), Just(RefMsg::Reset)],
+    ]
+    .boxed()
+}
+
+fn frame_strategy() -> BoxedStrategy<Vec<u8>> {
+    prop_oneof![
+        // a well-formed message
+        24 => msg_strategy().prop_map(|m| m.encode()),
+        // a data message followed by its payload frame is two frames; a lone payload-like frame
+        3 => proptest::collection::vec(any::<u8>(), 0..70),
+        // a message with its tail cut off or bytes appended
+        1 => (msg_strategy(), 0usize..12).prop_map(|(m, cut)| {
+            let mut e = m.encode();
+            let n = e.len().saturating_sub(cut).max(1);
+            e.truncate(n);
+            e
+        }),
+        1 => (msg_strategy(), proptest::collection::vec(any::<u8>(), 1..6)).prop_map(|(m, extra)| {
+            let mut e = m.encode();
+            e.extend(extra);
+            e
+        }),
+        // a message with one byte changed
+        1 => (msg_strategy(), any::<u16>(), any::<u8>()).prop_map(|(m, at, v)| {
+            let mut e = m.encode();
+            let i = at as usize % e.len();
+            e[i] = v;
+            e
+        }),
+    ]
+    .boxed()
+}
+
+pub fn bytes_strategy() -> BoxedStrategy<BytesCase> {
+    (any::<u8>(), any::<u8>(), proptest::collection::vec(frame_strategy(), 0..14)).prop_map(|(sel, beh, frames)| BytesCase { sel, beh, frames }).boxed()
+}
+
+pub fn run_bytes(case: &BytesCase) -> Outcome {
+    let input = case.to_input();
+    let o = rvh::fuzz_c08::run_input(&input);
+    let mut out = Outcome::default();
+    out.frames = o.frames as u64;
+    if let Some((sig, msg)) = o.fail {
+        out.fail(sig, msg);
+    }
+    out.class(if o.terminated_by_input { "bytes:terminated-by-input" } else { "bytes:kept-running-until-eof" });
+    if o.ports_learned > 0 {
+        out.class("bytes:real-ports-learned");
+    }
+    if o.ports_opened > 0 {
+        out.class("bytes:listener-accepted");
+    }
+    // Non-trivial: frames reached an endpoint that had at least one port open or requested.
+    out.nontrivial = o.frames >= 2 && (o.ports_learned > 0 || o.ports_opened > 0);
+    out
+}
+
+/// Coverage-guided campaign (libFuzzer through cargo-fuzz) on the same entry function. A crash is
+/// replayed in process to obtain its signature and a JSON replay file. If the fuzzing toolchain
+/// cannot build the target here, the stage is reported as unavailable (it never fails the check).
+fn libfuzzer_stage(rep: &mut Report, seed: u64, secs: u64) {
+    use std::process::Command;
+    let root = runner::verif_root();
+    let dir = root.join("target").join("fuzz-c08");
+    let corpus = dir.join("corpus");
+    let art = dir.join("artifacts");
+    let _ = std::fs::remove_dir_all(&dir);
+    let _ = std::fs::create_dir_all(&corpus);
+    let _ = std::fs::create_dir_all(&art);
+    for (i, s) in rvh::fuzz_c08::seed_corpus().iter().enumerate() {
+        let _ = std::fs::write(corpus.join(format!("seed-{i:02}")), s);
+    }
+    let t0 = std::time::Instant::now();
+    let jobs = std::env::var("VERIF_THREADS").ok().and_then(|s| s.parse::<u32>().ok()).unwrap_or(16).clamp(1, 16);
+    let output = Command::new("cargo")
+        .current_dir(root.join("harness"))
+        .env("CARGO_NET_OFFLINE", "true")
+        .env("RUSTFLAGS", "--cfg remoc_verif --cfg tokio_unstable")
+        .env_remove("CARGO_TARGET_DIR")
+        .args(["+nightly", "fuzz", "run", "c08_frames"])
+        .arg(&corpus)
+        .arg("--")
+        .arg(format!("-artifact_prefix={}/", art.display()))
+        .arg(format!("-max_total_time={secs}"))
+        .arg(format!("-seed={}", if seed == 0 { 1 } else { seed & 0x7fff_ffff }))
+        .arg(format!("-fork={jobs}"))
+        .args(["-max_len=1500", "-len_control=0", "-timeout=30", "-rss_limit_mb=4096", "-ignore_timeouts=1", "-ignore_ooms=1", "-print_final_stats=1"])
+        .output();
+    let Ok(output) = output else {
+        rep.parts.push(json!({"part": "libfuzzer", "status": "unavailable: cargo could not be started"}));
+        return;
+    };
+    let text = format!("{}\n{}", String::from_utf8_lossy(&output.stdout), String::from_utf8_lossy(&output.stderr));
+    // Last progress line of fork mode: "#N: cov: C ft: F corp: K exec/s E oom/timeout/crash: a/b/c time: Ts ..."
+    let mut execs = 0u64;
+    let mut cov = 0u64;
+    let mut ft = 0u64;
+    let mut corp = 0u64;
+    for l in text.lines() {
+        let l = l.trim();
+        if let Some(rest) = l.strip_prefix('#') {
+            let mut it = rest.split_whitespace();
+            let n = it.next().unwrap_or("").trim_end_matches(':').parse::<u64>().unwrap_or(0);
+            let toks: Vec<&str> = rest.split_whitespace().collect();
+            let val = |key: &str| toks.iter().position(|t| *t == key).and_then(|i| toks.get(i + 1)).and_then(|v| v.split('/').next()).and_then(|v| v.parse::<u64>().ok());
+            if let (Some(c), Some(f)) = (val("cov:"), val("ft:")) {
+                execs = execs.max(n);
+                cov = cov.max(c);
+                ft = ft.max(f);
+                corp = val("corp:").unwrap_or(corp);
+            }
+        }
+    }
+    let crashes: Vec<std::path::PathBuf> = std::fs::read_dir(&art)
+        .map(|rd| rd.filter_map(|e| e.ok()).map(|e| e.path()).filter(|p| p.file_name().and_then(|n| n.to_str()).map(|n| n.starts_with("crash-")).unwrap_or(false)).collect())
+        .unwrap_or_default();
+    if execs == 0 && crashes.is_empty() {
+        let tail: String = text.lines().rev().take(6).collect::<Vec<_>>().into_iter().rev().collect::<Vec<_>>().join(" | ");
+        rep.parts.push(json!({"part": "libfuzzer", "status": "unavailable: the fuzz target did not build or run here", "tail": tail}));
+        rep.assumptions.push("the coverage-guided stage (cargo +nightly fuzz run c08_frames) was unavailable in this run; the byte-level search was done by the in-process generator only".into());
+        return;
+    }
+    rep.evaluations += execs;
+    rep.parts.push(json!({
+        "part": "libfuzzer", "status": "ran", "executions": execs, "edge_coverage": cov, "features": ft, "corpus_units": corp,
+        "crash_artifacts": crashes.len(), "wall_s": t0.elapsed().as_secs_f64(), "forks": jobs, "budget_s": secs,
+    }));
+    rep.extra.insert("libfuzzer".into(), json!({"executions": execs, "edge_coverage": cov, "features": ft, "corpus_units": corp}));
+    for c in crashes.iter().take(4) {
+        let Ok(data) = std::fs::read(c) else { continue };
+        let case = BytesCase::from_input(&data);
+        let (f, _) = runner::replay_case(&case, run_bytes, 2);
+        let f = f.unwrap_or_else(|| runner::Failure::new("C08/fuzz/crash-under-sanitizer", format!("libFuzzer reported a crash for this input (artifact {}), the in-process replay without sanitizer holds", c.display())));
+        rep.record_failure("bytes", &case, &f);
+    }
 }
